@@ -40,6 +40,8 @@ func init() {
 			Doc: "stdio client: a pending CallTool || the reader answering an unknown server request; stdin recorded byte-wise"})
 		RegisterScenario(&Scenario{Name: "c09/get-stream/" + pl, Run: func(p []int, m []vsched.ChoicePoint) explore.Outcome { return c09GetStream(p, pl) },
 			Doc: "Streamable GET stream: SendNotification || SendNotification || ListRoots request"})
+		RegisterScenario(&Scenario{Name: "c09/get-resume/" + pl, Run: func(p []int, m []vsched.ChoicePoint) explore.Outcome { return c09GetResume(p, pl) },
+			Doc: "Streamable GET stream opened with Last-Event-ID (a resuming client): the server's stream/resumed greeting || SendNotification || ListRoots request, sent as soon as the stream's headers are in"})
 		RegisterScenario(&Scenario{Name: "c09/ls-tick/" + pl, Run: func(p []int, m []vsched.ChoicePoint) explore.Outcome { return c09LSStream(p, pl, true) },
 			Doc: "legacy SSE stream: one response || server-issued roots/list || keep-alive tick (a clock thread fires the earliest timer at an arbitrary point)"})
 		RegisterScenario(&Scenario{Name: "c09/ls-stream/" + pl, Run: func(p []int, m []vsched.ChoicePoint) explore.Outcome { return c09LSStream(p, pl, false) },
@@ -65,6 +67,7 @@ func init() {
 				continue // quick tier: the HTTP stream scenarios run for three payload classes (thorough: all seven)
 			}
 			c.DFSBoth("c09/get-stream/"+pl, b, 1)
+			c.DFSBoth("c09/get-resume/"+pl, b, 1)
 			c.DFSBoth("c09/ls-stream/"+pl, b, 0)
 			c.DFS("c09/ls-tick/"+pl, explore.Bounds{Preempt: c.Pick(2, 3), Dev: 1, POR: true})
 		}
@@ -381,6 +384,80 @@ func c09GetStream(prefix []int, pl string) explore.Outcome {
 			"notification 1": note(1), "notification 2": note(2), "roots/list request": isMethod("roots/list"),
 		})...)
 		obs.Add("%d events", len(got))
+	})
+	return finishOutcome(res, obs, viol, true)
+}
+
+// c09GetResume: the GET stream is opened with Last-Event-ID while senders wait for nothing but its
+// response headers: the server's own first event on the resumed stream shares it with them.
+func c09GetResume(prefix []int, pl string) explore.Outcome {
+	defer nonAtomicWriters()()
+	var viol []explore.Violation
+	obs := &hx.Log{}
+	payload := c09Payloads[pl]
+	res := vsched.Run(cfgFor(prefix), func() {
+		vsched.SetBranching(false)
+		r := NewRig("ss")
+		rp := NewRawPeer(r)
+		if err := rp.Handshake(); err != nil {
+			viol = append(viol, V("setup-handshake-fails", "setting the scenario up with well-behaved peers fails: %v", err))
+			return
+		}
+		vsched.Quiesce()
+		vsched.SetBranching(true)
+		sid := rp.SID
+		up := &hx.Flag{}
+		var e1, e3 error
+		vsched.Go("opener", func() {
+			_, x, err := rp.P.Open(context.Background(), http.MethodGet, r.URL, sid, nil, map[string]string{"Last-Event-ID": "evt-1-1"})
+			if err == nil && x.Status == 200 {
+				rp.Stream = x
+			}
+			up.Set()
+		})
+		vsched.Go("notify1", func() {
+			up.Wait("await the stream's headers")
+			e1 = r.Server.SendNotification(sid, "notifications/message", map[string]interface{}{"n": 1, "data": payload})
+		})
+		vsched.Go("roots", func() {
+			up.Wait("await the stream's headers")
+			_, e3 = r.Server.ListRoots(hx.SessionCtx(r.Server, sid))
+		})
+		vsched.Go("answerer", func() {
+			up.Wait("await the stream's headers")
+			if rp.Stream == nil {
+				return
+			}
+			id := hx.AwaitRequestID(rp.Stream, "roots/list")
+			if id != "" {
+				rp.P.Post(sid, fmt.Sprintf(`{"jsonrpc":"2.0","id":%s,"result":{"roots":[]}}`, id))
+			}
+		})
+		vsched.Quiesce()
+		if rp.Stream == nil {
+			viol = append(viol, V("harness", "GET with Last-Event-ID was refused"))
+			return
+		}
+		if e1 != nil || e3 != nil {
+			viol = append(viol, V("send-fails:get-resume", "sends issued after the stream's headers were received failed: %v %v", e1, e3))
+		}
+		got, v := c09SSE(rp.Stream.Delivered(), "get-resume")
+		viol = append(viol, v...)
+		viol = append(viol, c09Expect(got, "get-resume", map[string]func(map[string]interface{}) bool{
+			"notification 1": func(m map[string]interface{}) bool {
+				p, _ := m["params"].(map[string]interface{})
+				return m["method"] == "notifications/message" && p["n"] == float64(1) && p["data"] == payload
+			},
+			"roots/list request": isMethod("roots/list"),
+			"stream/resumed":     isMethod("stream/resumed"),
+		})...)
+		var order []string
+		for _, g := range got {
+			var m map[string]interface{}
+			json.Unmarshal([]byte(g), &m)
+			order = append(order, fmt.Sprint(m["method"]))
+		}
+		obs.Add("%d events %v", len(got), order)
 	})
 	return finishOutcome(res, obs, viol, true)
 }
